@@ -108,6 +108,16 @@ def check_cos_scale_free(run, A):
     ctx = ev.entry(fn, overrides=over)
     if ctx.result is None:
         raise AnalysisError(f'{q}: no result')
+    # ... along TIME: what reaches the inner product is unit norm along the last axis (a normalisation over the class or frequency axis also
+    # removes the global scale, but the score is then no cosine between activity patterns)
+    from ..walk import callee_func
+    mul = [cf for cf in ctx.callfacts if callee_func(cf) is not None and callee_func(cf).name == 'multiply']
+    if not mul:
+        raise AnalysisError(f'{q}: the call of the inner-product metric is not resolved')
+    for cf in mul:
+        bad = [k for k, v in cf.args.items() if k in ('mask', 'reference_mask') and v.norm != ('UNIT', -1)]
+        run.check(not bad, 'R-NORM', '_ScoreMatrix.cos: both arguments are unit norm along time when they reach the inner product', fn.loc(cf.term.node), '',
+                  f'{bad} reach(es) _ScoreMatrix.multiply not normalised along the time axis (-1)', construct=f'R-NORM::{q}::unit-along-time')
     if not all(('param', p_) in ctx.result.deps for p_ in over):
         raise AnalysisError(f'{q}: the dependence of the score on its arguments is not resolved')
     leaks = scale_taint(ctx.result)
